@@ -7,11 +7,67 @@ from . import e2_formula as F
 from . import c04_sem as S
 from .c04_txt import Fld, Lit, Txt, PackV, is_rat, atom_id, const_int, is_bad
 from .e2_eval import is_unknown
+from .sem import unfn
+from .c04_txt import sym_name
 
 WRITERS = {
     ("ascii", "dense"): "_write_ascii", ("ascii", "bigmat"): "_write_ascii_bigmat", ("ascii", "nonbigmat"): "_write_ascii_nonbigmat",
     ("binary", "dense"): "_write_binary", ("binary", "bigmat"): "_write_binary_bigmat", ("binary", "nonbigmat"): "_write_binary_nonbigmat",
 }
+
+
+def data_base(v):
+    """idx(array, i) -> array"""
+    u = unfn(v) if is_rat(v) else None
+    if u and u[0] == "idx" and len(u[1]) == 2:
+        return u[1][0]
+    return None
+
+
+
+def slice_start(arr):
+    """first row of the rows an array value holds: the lower bound of the row slice it was cut with, or the offset of the scatter that fills it"""
+    seen = 0
+    v = arr
+    while seen < 12 and is_rat(v):
+        seen += 1
+        u = unfn(v)
+        if not u:
+            return None
+        name, a = u
+        if name in ("asreal", "call:.ravel", "call:np.asarray", "call:np.array", "call:.copy") and a:
+            v = a[0]
+            continue
+        if name == "idx" and len(a) == 2:
+            us = unfn(a[1])
+            if us and us[0] == "slice":
+                lo = us[1][0]
+                return F.const(0) if sym_name(lo) == "None" else lo
+            return None
+        if name == "upd" and len(a) == 3:
+            # vec[rows - s] = values : the scatter index is (row - first row)
+            ix = a[1]
+            if is_rat(ix) and ix.d.is_const():
+                neg = [(m, c) for m, c in ix.n.t.items() if c < 0]
+                if len(neg) == 1 and len(ix.n.t) == 2:
+                    m, c = neg[0]
+                    return F.Rat(F.Poly({m: -c})) / ix.d.const_value()
+            return None
+        return None
+    return None
+
+
+
+def find_pair(elems):
+    """the (start, length) pair among the targets of a loop over the strings of a column"""
+    if isinstance(elems, tuple):
+        if len(elems) == 2 and all(is_rat(x) for x in elems):
+            return elems
+        for x in elems:
+            r = find_pair(x)
+            if r is not None:
+                return r
+    return None
 
 
 class Rec:
@@ -46,15 +102,31 @@ class WRun:
             self._cut_binary()
         else:
             self._cut_ascii()
+        # dense layouts: the array whose rows are written and the atom standing for its first row
+        self.first = None
+        self.flag_min = None
+        if layout == "dense":
+            arr = None
+            if self.binary and self.data is not None and self.data.items:
+                arr = self.data.items[0].value
+            elif not self.binary and self.data:
+                fl = [f for l in self.data for f in l.txt.fields()]
+                arr = data_base(fl[0].v) if fl else None
+            st = slice_start(arr) if arr is not None else None
+            if st is not None and atom_id(st) is not None:
+                self.first = st
         # generic column / string symbols
         if self.colhdr is not None and self.colhdr.frames:
             fr = self.colhdr.frames[0]
             if fr.kind == "for" and is_rat(fr.elems):
                 self.col = fr.elems
+        self.str_iter = None
         if self.strhdr is not None:
             for fr in reversed(self.strhdr.frames):
-                if fr.kind == "for" and isinstance(fr.elems, tuple) and len(fr.elems) == 2 and all(is_rat(x) for x in fr.elems):
-                    self.r0, self.r1 = fr.elems
+                pr = find_pair(fr.elems) if fr.kind == "for" else None
+                if pr is not None:
+                    self.r0, self.r1 = pr
+                    self.str_iter = fr.iterable
                     break
 
     def regime(self):
@@ -83,34 +155,56 @@ class WRun:
         self.sent_data = sd[-1] if sd else None
 
     def _cut_binary(self):
+        """records by position and loop depth of the items (not by how the writer groups them into pack calls)"""
         items, prob = S.items_of(self.W.emits)
         self.problems = prob
-        recs = []
-        for it, fr, node, pack in items:
-            if recs and recs[-1].pack is pack:
-                recs[-1].items.append(it)
-            else:
-                recs.append(Rec(pack, [it], fr, node))
-        self.recs = recs
         self.items = [it for it, _f, _n, _p in items]
-        if not recs:
+        if not items:
             return
-        self.header = recs[0]
-        inner = [r for r in recs[1:] if len(r.frames) >= 1]
+
+        def rec(seq):
+            return Rec(None, [x[0] for x in seq], seq[0][1], seq[0][2]) if seq else None
+        k = 0
+        while k < len(items) and len(items[k][1]) == 0:
+            k += 1
+        self.header = rec(items[:k])
+        inner = []
+        while k < len(items) and len(items[k][1]) >= 1:
+            inner.append(items[k])
+            k += 1
+        outer = items[k:]
         if inner:
-            self.colhdr = inner[0]
-            d0 = len(self.colhdr.frames)
-            deeper = [r for r in inner[1:] if len(r.frames) > d0]
-            runs = [r for r in inner[1:] if any(it.run for it in r.items)]
-            if deeper:
-                sh = [r for r in deeper if r.ints()]
-                self.strhdr = sh[0] if sh else None
-            self.data = runs[0] if runs else None
-            same = [r for r in inner[1:] if len(r.frames) == d0 and r.ints() and not any(it.run for it in r.items)]
-            self.coltrail = same[-1] if same else None
-        outer = [r for r in recs[1:] if len(r.frames) == 0]
-        if len(outer) >= 3:
-            self.sentinel, self.sent_data, self.sent_trail = outer[-3], outer[-2], outer[-1]
+            d0 = len(inner[0][1])
+            # column header: the items at column depth before the first run / deeper item
+            j = 0
+            while j < len(inner) and len(inner[j][1]) == d0 and not inner[j][0].run:
+                j += 1
+            self.colhdr = rec(inner[:j])
+            rest = inner[j:]
+            sh = []
+            i = 0
+            while i < len(rest) and len(rest[i][1]) > d0 and not rest[i][0].run:
+                sh.append(rest[i])
+                i += 1
+            self.strhdr = rec(sh)
+            runs = [x for x in rest if x[0].run]
+            self.data = rec(runs[:1])
+            tail = []
+            for x in reversed(rest):
+                if len(x[1]) == d0 and not x[0].run:
+                    tail.insert(0, x)
+                else:
+                    break
+            self.coltrail = rec(tail)
+        # sentinel: (record length, cols + 1, 1, 2) (one double) (record length)
+        if outer:
+            j = 0
+            while j < len(outer) and outer[j][0].code != "d":
+                j += 1
+            self.sentinel = rec(outer[:j])
+            self.sent_data = rec(outer[j:j + 1])
+            self.sent_trail = rec(outer[j + 1:])
+        self.recs = [r for r in (self.header, self.colhdr, self.strhdr, self.data, self.coltrail, self.sentinel, self.sent_data, self.sent_trail) if r is not None]
 
     def colhdr_vals(self):
         """values of the integer fields of the column header"""
@@ -150,7 +244,7 @@ class LRun:
             self.left = W.stream.left()
         else:
             self.left = [l for l in W.lines[W.lines_i:] if not l.is_data]
-        self.block = [c for c in W.calls if c[0] == "._get_ascii_block"]
+        self.block = [c for c in W.calls if isinstance(c[0], str) and c[0].startswith(".") and len(c[1]) >= 4 and is_rat(c[1][0]) and S.sym_name(c[1][0]) == "self"]
 
     def bads(self):
         """provable disagreements met while reading (a slice or a read that cuts what the writer emitted)"""
@@ -182,9 +276,25 @@ class Lab:
         self.state, self.init_fn = S.init_state(ctx)
         self._rstate = None
         self._w, self._l = {}, {}
+        self._cb = None
+        self._r4 = None
 
     def rows4(self):
-        return const_int(self.state.get("self._rows4bigmat")) if is_rat(self.state.get("self._rows4bigmat")) else None
+        """the number of rows from which the nonbigmat writers switch to the bigmat layout: read off the regimes of the row count
+        (the first regime whose header carries the bigmat flag), so it does not matter where the limit is stored"""
+        if self._r4 is not None:
+            return self._r4 or None
+        vals = set()
+        for enc in ("ascii", "binary"):
+            for r in self.writer(enc, "nonbigmat"):
+                if r.raised or r.header is None:
+                    continue
+                rows = [f.v for f in r.header.txt.fields()][1] if not r.binary else (r.header.vals()[2] if len(r.header.items) > 2 else None)
+                if is_rat(rows) and rows.equals(-S.ROWS):
+                    vals.add(r.rows[0])
+                    break
+        self._r4 = vals.pop() if len(vals) == 1 else 0
+        return self._r4 or None
 
     def rstate(self):
         if self._rstate is None:
@@ -207,16 +317,55 @@ class Lab:
 
         def run(W):
             env = {"f": F.sym("f"), "name": F.sym("name"), "matrix": W.matrix, "digits": F.sym("digits"), "endian": F.sym("endian"), "form": F.sym("form")}
-            return S.run_method(W, "self." + WRITERS[(enc, layout)], env)
-        out = [WRun(enc, layout, kind, cplx, b, W, ev) for b, W, ev in S.explore(make, run)]
+            ev = S.run_method(W, "self." + WRITERS[(enc, layout)], env)
+            wr = WRun(enc, layout, kind, cplx, None, W, ev)
+            # the loader is evaluated in the same regime: a comparison it cannot decide splits the regime for both
+            wr.lr = self._load(wr) if not wr.raised else None
+            return wr
+        out = [r for _b, _W, r in S.explore(make, run)]
         out.sort(key=lambda r: (r.rows[0] or 0))
         self._w[key] = out
         return out
 
     def load(self, wr, sparse=None, truths=None):
+        if sparse is None and truths is None and getattr(wr, "lr", None) is not None:
+            return wr.lr
         key = (id(wr), repr(sparse), repr(truths))
         if key in self._l:
             return self._l[key]
+        try:
+            lr = self._load(wr, sparse, truths)
+        except S.NeedSplit as e:
+            raise S.Unsupported(f"loader: undecided comparison ({e})")
+        self._l[key] = lr
+        return lr
+
+    def callbacks(self):
+        """names of the functions `_get_funcs` hands to the readers as (init, put, retrn): the readers' calls of them are what the rules look at,
+        so they are not followed"""
+        if self._cb is not None:
+            return self._cb
+        names = set()
+        try:
+            for a_or_b in ("ascii", "binary"):
+                for r in (0, 1):
+                    for mtype in (2, 4):
+                        for sp in (S.FALSE, S.TRUE):
+                            W = S.base_world(self.ctx, self.state, rows=(1, 100), split_rows=False)
+                            W.opaque = set(S.OPAQUE_CORE)
+                            ev = S.run_method(W, "self._get_funcs", {"a_or_b": F.sym(repr(a_or_b)), "rows": F.const(100), "r": F.const(r), "mtype": F.const(mtype),
+                                                                      "sparse": sp, "allzeros": S.FALSE})
+                            ret = ev.returns[-1][0] if ev.returns else None
+                            if isinstance(ret, tuple) and len(ret) == 2 and isinstance(ret[1], tuple):
+                                for x in ret[1]:
+                                    if isinstance(x, S.FuncV):
+                                        names.add(x.fn.name)
+        except Exception:  # noqa
+            pass
+        self._cb = names
+        return names
+
+    def _load(self, wr, sparse=None, truths=None):
         ctx = self.ctx
         rstate = self.rstate() if wr.binary else dict(self.state)
         extra = {}
@@ -226,24 +375,35 @@ class Lab:
         if wr.r0 is not None:
             extra[atom_id(wr.r0)] = (0, S.ROWS - 1)
             extra[atom_id(wr.r1)] = (1, S.ROWS)
-            r4 = self.rows4()
-            if wr.rows[1] is not None and r4 is not None and wr.rows[1] < r4 and r4 <= 2 ** S.M.SHIFT:
-                small[repr(wr.r0 + 1)] = S.M.SHIFT
         elif wr.colhdr is not None:
             v = wr.colhdr_vals()
             k = 2 if wr.binary else 1
-            if v and len(v) > k and is_rat(v[k]) and atom_id(v[k] - 1) is not None:
-                extra[atom_id(v[k] - 1)] = (0, S.ROWS - 1)
+            first = wr.first
+            if first is None and v and len(v) > k and is_rat(v[k]) and atom_id(v[k] - 1) is not None:
+                first = v[k] - 1
+            if first is not None:
+                extra[atom_id(first)] = (0, S.ROWS - 1)
+                if v and len(v) > k and is_rat(v[k]):
+                    # the loader tells the dense layout by a positive first-row field: its minimum over first row >= 0
+                    probe = S.OP4Eval(None, wr.W)
+                    old = wr.W.bounds.get(atom_id(first))
+                    wr.W.bounds[atom_id(first)] = (0, S.ROWS - 1)
+                    try:
+                        wr.flag_min = probe.rng(v[k])[0]
+                    finally:
+                        if old is None:
+                            wr.W.bounds.pop(atom_id(first), None)
+                        else:
+                            wr.W.bounds[atom_id(first)] = old
+                    if wr.flag_min is not None and wr.flag_min < 1:
+                        # reported once by the rule; the rest of the round trip is evaluated for first row >= 1
+                        extra[atom_id(first)] = (1, S.ROWS - 1)
         W2 = S.loader_world(ctx, rstate, wr.W, wr.binary, truths=truths, extra_bounds=extra)
+        W2.opaque |= self.callbacks()
         W2.small.update(small)
         env = {"patternlist": F.sym("patternlist"), "listonly": F.sym("listonly"), "sparse": S.FALSE if sparse is None else sparse}
-        try:
-            ev2 = S.run_method(W2, "self._loadop4_binary" if wr.binary else "self._loadop4_ascii", env)
-        except S.NeedSplit as e:
-            raise S.Unsupported(f"loader: undecided comparison ({e})")
-        lr = LRun(wr, W2, ev2)
-        self._l[key] = lr
-        return lr
+        ev2 = S.run_method(W2, "self._loadop4_binary" if wr.binary else "self._loadop4_ascii", env)
+        return LRun(wr, W2, ev2)
 
 
 _LABS = {}
